@@ -35,6 +35,7 @@ def explore(S, K, want=('C04', 'C06', 'C05')):
             if ok:
                 yield combo
 
+    tasks = []
     for k in range(0, K + 1):
         for combo in sequences(k):
             def body(ctx, combo=combo):
@@ -126,11 +127,10 @@ def explore(S, K, want=('C04', 'C06', 'C05')):
                                 ctx.witness('math args on one line re-read')
                 if 'line' in combo:
                     ctx.witness('math args with line comment')
-            ob, ex = S.explore('mathargs[%s]' % ','.join(combo), 'convert_args_in_math over children %r' % (combo,), body, bounds=dict(children=k))
-            for lab, mdl, info in ex.violations:
-                found.append((lab, info))
-            if ob.status.startswith('inconclusive'):
-                return found
+            tasks.append(('mathargs[%s]' % ','.join(combo), 'convert_args_in_math over children %r' % (combo,), body, dict(children=k)))
+    for ob, viol in S.explore_batch(tasks):
+        for lab, mdl, info in viol:
+            found.append((lab, info))
     return found
 
 
